@@ -108,3 +108,103 @@ Example ex_tbs :
   [ ("IgnoreTest", 0); ("RedundantPrintTest", 11); ("SleepyTest", 12); ("RedundantAssertionTest", 10);
     ("UnknownTest", 30); ("EmptyTest", 40) ].
 Proof. vm_compute. reflexivity. Qed.
+
+(* ------------------------------------------------------------------ IgnoreTest / EmptyTest, exactly *)
+Definition loop_type (ty : string) : Prop :=
+  ty = "RedundantPrintTest" \/ ty = "SleepyTest" \/ ty = "RedundantAssertionTest" \/ ty = "UnknownTest".
+
+Lemma per_call_types : forall file f c t, In t (per_call file f c) -> loop_type (t_type t).
+Proof.
+  intros file f c t H. unfold per_call in H. destruct (String.eqb (c_fn c) ""); [contradiction|].
+  unfold loop_type.
+  repeat (apply in_app_or in H; destruct H as [H|H]);
+    match type of H with In _ (if ?b then _ else _) => destruct b end; try contradiction;
+      destruct H as [H|[]]; subst t; cbn [t_type]; auto.
+Qed.
+
+Lemma loop_smells_types : forall file f calls t,
+    In t (fst (calls_loop file f calls 0 (List.length calls) false [] [])) -> loop_type (t_type t).
+Proof.
+  intros file f calls t H. rewrite (calls_loop_spec file f calls 0 (List.length calls) false [] []) in H by lia.
+  cbn [app] in H. apply in_app_or in H. destruct H as [H|H].
+  - apply in_flat_map in H. destruct H as [c [_ H]]. eapply per_call_types; eauto.
+  - match type of H with In _ (if ?b then _ else _) => destruct b end; [|contradiction].
+    destruct H as [H|[]]. subst t. unfold loop_type. cbn [t_type]. auto.
+Qed.
+
+(* an IgnoreTest finding is reported exactly for the @Ignore annotations of a JUnit method *)
+Theorem ignore_test_exact : forall cmm d f,
+    In (mkT (d_path d) "IgnoreTest" 0) (method_smells cmm d f) <->
+    exists a, In a (f_annots f) /\ an_name a = "Ignore".
+Proof.
+  intros cmm d f. unfold method_smells. split.
+  - destruct (negb (is_junit_test f)); [contradiction|].
+    destruct (calls_loop _ _ _ _ _ _ _ _) as [loop groups] eqn:EL. intros H.
+    apply in_app_or in H. destruct H as [H|H].
+    + apply in_flat_map in H. destruct H as [a [Ha H]]. apply in_app_or in H. destruct H as [H|H].
+      * destruct (String.eqb (an_name a) "Ignore") eqn:E; [|contradiction]. apply String.eqb_eq in E. eauto.
+      * match type of H with In _ (if ?b then _ else _) => destruct b end; [|contradiction].
+        destruct H as [H|[]]. discriminate.
+    + apply in_app_or in H. destruct H as [H|H].
+      * assert (E : loop = fst (calls_loop (d_path d) f (update_calls_for_self_call f d cmm) 0
+                                          (List.length (update_calls_for_self_call f d cmm)) false [] []))
+          by now rewrite EL.
+        rewrite E in H. apply loop_smells_types in H. cbn [t_type] in H.
+        destruct H as [H|[H|[H|H]]]; discriminate.
+      * match type of H with In _ (if ?b then _ else _) => destruct b end; [|contradiction].
+        destruct H as [H|[]]. discriminate.
+  - intros [a [Ha En]].
+    assert (J : is_junit_test f = true).
+    { unfold is_junit_test. apply existsb_exists. exists a. split; [assumption|].
+      unfold is_ignore_or_test. rewrite En. reflexivity. }
+    rewrite J. cbn [negb].
+    destruct (calls_loop _ _ _ _ _ _ _ _) as [loop groups].
+    apply in_or_app. left. apply in_flat_map. exists a. split; [assumption|].
+    apply in_or_app. left. rewrite En. cbn. now left.
+Qed.
+
+(* EmptyTest, as the code has it: a @Test method with AT MOST ONE call (after helper expansion) - the
+   property says "no call"; the difference is finding D21 *)
+Theorem empty_test_as_implemented : forall cmm d f,
+    In (mkT (d_path d) "EmptyTest" (p_sl (f_pos f))) (method_smells cmm d f) <->
+    (exists a, In a (f_annots f) /\ an_name a = "Test") /\
+    List.length (update_calls_for_self_call f d cmm) <= 1.
+Proof.
+  intros cmm d f. unfold method_smells. split.
+  - destruct (negb (is_junit_test f)); [contradiction|].
+    destruct (calls_loop _ _ _ _ _ _ _ _) as [loop groups] eqn:EL. intros H.
+    apply in_app_or in H. destruct H as [H|H].
+    + apply in_flat_map in H. destruct H as [a [Ha H]]. apply in_app_or in H. destruct H as [H|H].
+      * match type of H with In _ (if ?b then _ else _) => destruct b end; [|contradiction].
+        destruct H as [H|[]]. discriminate.
+      * destruct (String.eqb (an_name a) "Test") eqn:E; cbn [andb] in H; [|contradiction].
+        destruct (Nat.leb (List.length (update_calls_for_self_call f d cmm)) 1) eqn:L; [|contradiction].
+        apply String.eqb_eq in E. apply Nat.leb_le in L. split; eauto.
+    + apply in_app_or in H. destruct H as [H|H].
+      * assert (E : loop = fst (calls_loop (d_path d) f (update_calls_for_self_call f d cmm) 0
+                                          (List.length (update_calls_for_self_call f d cmm)) false [] []))
+          by now rewrite EL.
+        rewrite E in H. apply loop_smells_types in H. cbn [t_type] in H.
+        destruct H as [H|[H|[H|H]]]; discriminate.
+      * match type of H with In _ (if ?b then _ else _) => destruct b end; [|contradiction].
+        destruct H as [H|[]]. discriminate.
+  - intros [[a [Ha En]] L].
+    assert (J : is_junit_test f = true).
+    { unfold is_junit_test. apply existsb_exists. exists a. split; [assumption|].
+      unfold is_ignore_or_test. rewrite En. reflexivity. }
+    rewrite J. cbn [negb].
+    destruct (calls_loop _ _ _ _ _ _ _ _) as [loop groups].
+    apply in_or_app. left. apply in_flat_map. exists a. split; [assumption|].
+    apply in_or_app. right. rewrite En. cbn [String.eqb Ascii.eqb Bool.eqb andb].
+    apply Nat.leb_le in L. rewrite L. now left.
+Qed.
+
+(* D21, the witness: a test whose body makes exactly one call is reported as empty *)
+Definition ex_one_call_class : ds :=
+  mkDs "OTest" "Class" "t" "t/OTest.java" [] "" []
+       [ mkFunc "test1" "void" [] [ex_tc "repo" "save" 11 []] false [mkAnnot "Test" []] false false [] (mkPos 10 2 12 2) ]
+       [] [] [].
+
+Example one_call_test_reported_empty_refuted :
+  map (fun t => (t_type t, t_line t)) (tbs_analysis [ex_one_call_class]) = [("EmptyTest", 10); ("UnknownTest", 10)].
+Proof. vm_compute. reflexivity. Qed.
